@@ -194,7 +194,7 @@ def surface_sweep(tier, rnd):
 
 NUMERIC = [
     "digits(10**400, 2).len()", "digits(2**100000, 10).len()", "digits(10**15, 2).len()", "binom(10**9, 5 * 10**8)", "binom(10**18, 3)", "binom(10**6, 500000)",
-    "multinom([10**6, 10**6])", "multinom(range(2000).to_array())", "factorial(10**7)", "factorial(10**9)", "2 ** (2**40)", "3 ** (10**12)", "(10**400) ** (10**6)",
+    "multinom([10**6, 10**6])", "multinom(range(2000).to_array())", "multinom([290] * 10**7)", "multinom(([7, 250] * 10**7).to_array())", "factorial(10**7)", "factorial(10**9)", "2 ** (2**40)", "3 ** (10**12)", "(10**400) ** (10**6)",
     "(-2) ** (2**33)", "pow(fraction(2, 3), 10**9)", "range(10**18).len()", "range(10**18).to_array().len()", "range(10**12).sum()", "range(10**9).map((x: int) -> {x + 1}).to_array().len()",
     "range(10**9).filter((x: int) -> {x < 0}).to_array()", "range(10**12).to_generator().filter((x: int) -> {x < 0}).len()", "count().len()", "count().to_array()", "count().last()",
     "count().reverse().get(0)", "count().sort().get(0)", "count().sum()", "count().to_generator().sum()", "count().map((x: int) -> {x * 2}).to_array()", "count().contains(-1)",
